@@ -27,6 +27,9 @@ func init() {
 	Registry["C16"] = C16
 	Registry["C03"] = C03
 	Registry["C09"] = C09
+	Registry["C02"] = C02
+	Registry["C05"] = C05
+	Registry["C14"] = C14
 }
 
 func init() { Registry["C13"] = C13 }
